@@ -99,6 +99,9 @@ def plan(tier, seed):
         specs.append({"name": "inbreed-%dD" % nd, "kind": "inbreed", "nd": nd, "n": n, "timeout": 1800})
     specs.append({"name": "bbc", "kind": "bbc", "n": 60 if q else 600, "timeout": 900})
     specs.append({"name": "refine", "kind": "refine", "n": 6 if q else 40, "timeout": 1500})
+    # the repository's own tests as workload, with the ambient monitors of vf.ambient installed
+    if tier != "quick":
+        specs.append({"name": "ambient-tests", "kind": "ambient-tests", "files": ['test_Freezing.py', 'test_Admixture.py', 'test_Inbreeding.py', 'test_1D_Integration.py', 'test_Optimization.py'], "timeout": 2400, "cpus": 4})
     return specs
 
 
@@ -108,6 +111,8 @@ def required(tier):
          "inbreeding-F-to-0": 10, "betabinom-sum-one": 50, "direct-vs-analytic-refines": 4}
     for nd in range(1, 6):
         r["exact-binhat-%dD" % nd] = 3
+    if tier != "quick":
+        r.update({'ambient-from_phi-mass': 20})
     return r
 
 
@@ -118,6 +123,9 @@ def sizes(rng, nd, cap):
 
 
 def run(spec, rec):
+    if spec.get("kind") == "ambient-tests":
+        from vf import ambient
+        return ambient.run_tests_batch(spec, rec, 'C05')
     import dadi
     from dadi import Spectrum, Numerics
     seed = spec["seed"]
